@@ -180,6 +180,34 @@ def gen_vm_case(rng, cid):
     return {"id": cid, "ver": ver, "naccts": n, "bal": str(BAL), "public": rng.random() < 0.6, "coinbase": coinbase, "blocks": blocks, "_vm": True}
 
 
+def deadline_family(rng, prefix, ver=None, public=None):
+    """the block-generation deadline (the context GatherTXs consults in checkBGTimeout) expires at
+    every position of the candidate list of one block: already expired when gathering starts (-1)
+    and while candidate k executes (k = 0..m-1).  The candidates mix transfers, contract calls
+    (success / runtime error / VM system error, each with a fee) and a stake; the following block
+    is built by accounts the deadline block did not use."""
+    ver = rng.choice([0, 2, 3, 4, 5]) if ver is None else ver
+    public = (rng.random() < 0.5) if public is None else public
+    n = 6
+    setup = [{"from": 0, "nonce": 1, "kind": "deploy", "payload": "ok|1000|a=b|deployed"},
+             {"from": 1, "nonce": 1, "kind": "transfer", "to": 2, "amt": "5"}]
+    pool = [lambda: {"from": 0, "nonce": 2, "kind": "call", "ctr": [0, 1], "payload": "ok|%d|k=v|set" % rng.choice([0, 700, 10 ** 12])},
+            lambda: {"from": 1, "nonce": 2, "kind": "transfer", "to": 3, "amt": str(rng.randrange(1, 10 ** 6))},
+            lambda: {"from": 2, "nonce": 1, "kind": "call", "ctr": [0, 1], "payload": "rt|%d" % rng.choice([1, 900])},
+            lambda: {"from": 3, "nonce": 1, "kind": "call", "ctr": [0, 1], "payload": "vmstart|500"},
+            lambda: {"from": 3, "nonce": 1, "kind": "stake", "amt": str(S)},
+            lambda: {"from": 1, "nonce": 3, "kind": "transfer", "to": 0, "amt": "77"}]
+    m = rng.randrange(3, len(pool) + 1)
+    txs = [f() for f in pool[:m]]
+    after = [{"from": 4, "nonce": 1, "kind": "transfer", "to": 0, "amt": "9"}]
+    out = []
+    for d in range(-1, m):
+        out.append({"id": "%s-d%d" % (prefix, d), "ver": ver, "naccts": n, "bal": str(BAL), "public": public, "coinbase": n - 1,
+                    "blocks": [{"ts": 1000, "txs": setup}, {"ts": 2000, "txs": [dict(t) for t in txs], "deadline": d},
+                               {"ts": 3000, "txs": after}], "_deadline": True})
+    return out
+
+
 def twin_case(cid, ver=2, pairs=6):
     """F10: `pairs` parity-twin pairs, all with equal tallies"""
     cs = []
